@@ -88,7 +88,7 @@ fn chg_name(c: &ChangeType) -> &'static str {
 }
 
 fn name_of(id: u64) -> String {
-    // model ids: base paths are multiples of 4; 4k+1 / 4k+2 are the conflict names of k
+    // model ids: base paths are multiples of 4; 16 p + 4 k + 1 / + 2 are the conflict names of p
     if id % 4 == 1 || id % 4 == 2 {
         unreachable!("edits never address conflict names");
     }
@@ -100,31 +100,92 @@ fn name_of(id: u64) -> String {
     }
 }
 
-/// map a real relative path back to the model id
-fn id_of(rel: &str) -> Option<u64> {
+/// a real relative name: base id and the chain of conflict suffixes (time stamp, counter, side)
+fn parse_name(rel: &str) -> Option<(u64, Vec<(u64, u64, u64)>)> {
     let base = rel.rsplit('/').next().unwrap();
     let base = base.strip_suffix(".txt").unwrap_or(base);
     let mut parts = base.split(".conflict-");
     let first = parts.next()?;
-    let mut id: u64 = first.strip_prefix('f')?.parse().ok()?;
+    let id: u64 = first.strip_prefix('f')?.parse().ok()?;
+    let mut chain = Vec::new();
     for p in parts {
-        // <ts>-source | <ts>-dest
-        if p.ends_with("-source") {
-            id = 4 * id + 1;
-        } else if p.ends_with("-dest") {
-            id = 4 * id + 2;
+        // <ts>-source | <ts>-<n>-source | <ts>-dest | <ts>-<n>-dest
+        let (rest, side) = if let Some(r) = p.strip_suffix("-source") {
+            (r, 1u64)
+        } else if let Some(r) = p.strip_suffix("-dest") {
+            (r, 2u64)
         } else {
             return None;
-        }
+        };
+        let mut it = rest.split('-');
+        let ts: u64 = it.next()?.parse().ok()?;
+        let n: u64 = match it.next() {
+            Some(x) => x.parse().ok()?,
+            None => 0,
+        };
+        chain.push((ts, n, side));
     }
-    Some(id)
+    Some((id, chain))
+}
+
+/// Model ids of conflict copies: the k-th conflict name of p on side sd is 16 p + 4 k + sd, where k is the RANK of the copy
+/// among all copies of p with that side tag that ever existed in either root, ordered by (time stamp, counter) -- the order in
+/// which they were made.  This does not depend on whether two conflicts fell into the same wall-clock second.
+struct Namer {
+    all: Vec<(u64, Vec<(u64, u64, u64)>)>,
+}
+
+impl Namer {
+    fn new(roots: &[&Path]) -> Namer {
+        let mut all = Vec::new();
+        for root in roots {
+            let mut stack = vec![root.to_path_buf()];
+            while let Some(d) = stack.pop() {
+                if let Ok(rd) = std::fs::read_dir(&d) {
+                    for e in rd.flatten() {
+                        let p = e.path();
+                        if std::fs::symlink_metadata(&p).map(|m| m.is_dir()).unwrap_or(false) {
+                            stack.push(p);
+                        } else if let Some(x) = parse_name(&p.strip_prefix(root).unwrap().to_string_lossy()) {
+                            all.push(x);
+                        }
+                    }
+                }
+            }
+        }
+        Namer { all }
+    }
+
+    fn id_of(&self, rel: &str) -> Option<u64> {
+        let (base, chain) = parse_name(rel)?;
+        let mut id = base;
+        for i in 0..chain.len() {
+            let (ts, n, side) = chain[i];
+            let mut sibs: Vec<(u64, u64)> = self
+                .all
+                .iter()
+                .filter(|(b, c)| *b == base && c.len() > i && c[..i] == chain[..i] && c[i].2 == side)
+                .map(|(_, c)| (c[i].0, c[i].1))
+                .collect();
+            sibs.sort();
+            sibs.dedup();
+            let k = sibs.iter().position(|x| *x == (ts, n))? as u64;
+            id = 16 * id + 4 * k + side;
+        }
+        Some(id)
+    }
+}
+
+/// the state database keys are relative names too
+fn id_of(namer: &Namer, rel: &str) -> Option<u64> {
+    namer.id_of(rel)
 }
 
 fn set_mtime(p: &Path, t: u64) {
     filetime::set_file_mtime(p, filetime::FileTime::from_unix_time((T0 + t) as i64, 0)).unwrap();
 }
 
-fn snap(root: &Path) -> BTreeMap<u64, (u64, u64, i64)> {
+fn snap(root: &Path, namer: &Namer) -> BTreeMap<u64, (u64, u64, i64)> {
     let mut m = BTreeMap::new();
     let mut stack = vec![root.to_path_buf()];
     while let Some(d) = stack.pop() {
@@ -139,7 +200,7 @@ fn snap(root: &Path) -> BTreeMap<u64, (u64, u64, i64)> {
                     let data = std::fs::read(&p).unwrap();
                     let content = data.first().copied().unwrap_or(0) as u64;
                     let mt = md.modified().unwrap().duration_since(UNIX_EPOCH).unwrap().as_secs() as i64 - T0 as i64;
-                    match id_of(&rel) {
+                    match namer.id_of(&rel) {
                         Some(id) => {
                             m.insert(id, (data.len() as u64, content, mt));
                         }
@@ -285,6 +346,7 @@ fn main() {
                                 }
                             }
                         }
+                        let namer = Namer::new(&[&src, &dst]);
                         let db = BisyncStateDb::open(&src, &dst).unwrap().load_all().unwrap();
                         let mut rows: BTreeMap<u64, String> = BTreeMap::new();
                         for (p, (a, b)) in db.iter() {
@@ -296,13 +358,13 @@ fn main() {
                                 ),
                                 None => "-".into(),
                             };
-                            rows.insert(id_of(&p.to_string_lossy()).unwrap_or(u64::MAX), format!("S:{}|D:{}", f(a), f(b)));
+                            rows.insert(id_of(&namer, &p.to_string_lossy()).unwrap_or(u64::MAX), format!("S:{}|D:{}", f(a), f(b)));
                         }
                         out.push(format!(
                             "{} src{{{}}} dst{{{}}} db{{{}}}",
                             status,
-                            fmt_side(&snap(&src)),
-                            fmt_side(&snap(&dst)),
+                            fmt_side(&snap(&src, &namer)),
+                            fmt_side(&snap(&dst, &namer)),
                             rows.iter().map(|(k, v)| format!("{}={}", k, v)).collect::<Vec<_>>().join(",")
                         ));
                     }
